@@ -347,7 +347,7 @@ SIMPLE = ["x = 1", "x: int = 2", "x = y = 3", "y = 4", "import os",
           'x = 7\n""', 'y = 8\n"""Doc of y."""', "x = z['k'] = 3", "w = z[0].q = y = 4", '@property\ndef p(self):\n    ""\n    return 1', 'x = 9\n"Doc of x."\n"not a docstring"']
 COMPOUND = ["if TYPE_CHECKING:\n{0}", "if TYPE_CHECKING:\n{0}\nelse:\n{1}", "if cond:\n{0}\nelse:\n{1}", "try:\n{0}\nexcept E:\n{1}", "for _ in z:\n{0}",
             "class C:\n{0}", "class C:\n{0}\n{1}", "if typing.TYPE_CHECKING:\n{0}\n{1}", "if cond:\n{0}", "if not typing.TYPE_CHECKING:\n{0}", "if x.TYPE_CHECKING:\n{0}",
-            "if TYPE_CHECKING:\n    if cond:\n    {0}\n{1}", "class C:\n    def __init__(self):\n        self.x = self.w = 1\n{0}",
+            "if TYPE_CHECKING:\n    if cond:\n    {0}\n{1}", "class C:\n    def __init__(self):\n        self.x = self.w = 1\n{0}", "class C:\n{0}\n    def __init__(self):\n        self.opts.g = self.f.x = 2\n        self.y = 3",
             "@dataclasses.dataclass\nclass D:\n{0}"]
 
 
